@@ -17,6 +17,15 @@ use crate::simfs::SimFs;
 
 pub const DB_PATH: &str = "/db";
 
+thread_local! {
+    /// protocol tracker of the history running on this thread (reset at every open)
+    static SCHED: std::cell::RefCell<crate::c09::SchedTracker> = std::cell::RefCell::new(crate::c09::SchedTracker::default());
+}
+
+pub fn sched_reset() {
+    SCHED.with(|t| { let mut t = t.borrow_mut(); t.reset(); t.checked = 0; });
+}
+
 #[derive(Clone, Debug, PartialEq, Eq)]
 pub struct Cfg {
     pub memtable: usize,
@@ -256,6 +265,7 @@ pub struct Stats {
     pub lingering: u64,
     pub events_validated: u64,
     pub selections_checked: u64,
+    pub sched_steps_checked: u64,
     pub states_validated: u64,
     pub retention_checks: u64,
 }
@@ -728,6 +738,7 @@ pub fn run_history(h: &History, checks: &Checks, fs: &SimFs) -> RunOut {
     let mut cfg = h.cfg.clone();
     let mut completed = 0usize;
     let _ = raindb::verif::events_take(DB_PATH);
+    sched_reset();
     let mut db: Option<DB> = match DB::open(cfg.options(fs)) {
         Ok(d) => Some(d),
         Err(e) => {
@@ -749,6 +760,14 @@ pub fn run_history(h: &History, checks: &Checks, fs: &SimFs) -> RunOut {
         let events = raindb::verif::events_take(DB_PATH);
         if let Some(dr) = drv.as_mut() {
             validate_events(dr, &events, obs, stats, at, chain);
+            // the scheduling steps of the background worker against the protocol model's invariant
+            SCHED.with(|t| {
+                let mut t = t.borrow_mut();
+                if let Some((sig, what)) = t.feed(&events, dr) {
+                    obs.push(Obs { sig, what, at });
+                }
+                stats.sched_steps_checked = t.checked;
+            });
         }
         for ev in events {
             match ev {
@@ -1093,6 +1112,19 @@ pub fn run_history(h: &History, checks: &Checks, fs: &SimFs) -> RunOut {
                 if dropped.is_err() {
                     obs.push(Obs { sig: "c09:panic-in-close".into(), what: "closing the database panicked".into(), at: i });
                     break;
+                }
+                // what the closing instance still did (its last background task) belongs to its own
+                // protocol run: validate it before the counters start again for the new instance
+                let closing = raindb::verif::events_take(DB_PATH);
+                if let Some(dr) = drv.as_mut() {
+                    validate_events(dr, &closing, &mut obs, &mut stats, i, &mut chain);
+                    SCHED.with(|t| {
+                        let mut t = t.borrow_mut();
+                        if let Some((sig, what)) = t.feed(&closing, dr) {
+                            obs.push(Obs { sig, what, at: i });
+                        }
+                        t.reset();
+                    });
                 }
                 cfg = newcfg.clone();
                 stats.reopens += 1;
